@@ -75,3 +75,44 @@ REG.add(Contract(f"{NG}.nodes", module=M_NX, kind="property", params=dict(self=N
 REG.add(Contract(f"{NG}._edge_already_present", module=M_NX, kind="method", params=dict(self=NG, node_start="Node", node_end="Node", inherits="Bool"),
                  returns="Bool", defn="dg_edge(self._graph, node_start, node_end) and (dg_inh(self._graph, node_start, node_end) == inherits)",
                  properties=["C04", "C09"]))
+
+# ---------------------------------------------------------------- plot labels (C17, C14), string view
+from .speclib import set_function  # noqa
+REG.macro("alias_applies", ["a", "m"], "m == a or m.startswith(a + '.')")
+# the label of m: the alias of the most specific (longest) aliased module that is m itself or a dotted ancestor of m, followed by
+# the rest of m's name; m itself when no aliased module applies
+REG.define("label_ok", dict(aliases="Dict[Str,Str]", m="Str", r="Str"),
+           "implies(not exists(Str, lambda a: (a in aliases) and alias_applies(a, m)), r == m) and "
+           "implies(exists(Str, lambda a: (a in aliases) and alias_applies(a, m)), "
+           "exists(Str, lambda a: (a in aliases) and alias_applies(a, m) and r == aliases[a] + m[len(a):] and "
+           "forall(Str, lambda b: implies((b in aliases) and alias_applies(b, m), len(b) <= len(a)))))")
+REG.add(Contract(f"{NG}._create_label", module=M_NX, kind="method", view="string",
+                 params=dict(self=NG, module_name="Str", sorted_aliased_modules="Seq[Str]", aliases="Dict[Str,Str]"), returns="Str",
+                 # the list holds exactly the aliased names, longest first (established by _create_plot_labels_with_alias)
+                 requires=["forall(Int, lambda j: implies(0 <= j and j < len(sorted_aliased_modules), sorted_aliased_modules[j] in aliases))",
+                           "forall(Str, lambda a: implies(a in aliases, exists(Int, lambda j: 0 <= j and j < len(sorted_aliased_modules) and sorted_aliased_modules[j] == a)))",
+                           "forall(Int, Int, lambda j, k: implies(0 <= j and j < k and k < len(sorted_aliased_modules), len(sorted_aliased_modules[j]) >= len(sorted_aliased_modules[k])))"],
+                 # no aliased module applies: the module keeps its full name; otherwise some applicable aliased module a produced the label
+                 # and no applicable aliased module is longer (more specific) than a
+                 ensures=["label_ok(aliases, module_name, result)"],
+                 ghost_asserts=["(most_specific_aliased_module in aliases) and alias_applies(most_specific_aliased_module, module_name)",
+                                "forall(Str, lambda b: implies((b in aliases) and alias_applies(b, module_name), len(b) <= len(most_specific_aliased_module)))",
+                                "result == aliases[most_specific_aliased_module] + module_name[len(most_specific_aliased_module):]"],
+                 properties=["C17", "C14"]))
+REG.add(Contract(f"{NG}._assert_aliased_modules_exist", module=M_NX, kind="method", view="string",
+                 params=dict(self=NG, aliases="Dict[Str,Str]", module_names="Bag[Str]"), returns="None",
+                 # C17: an alias for a module that does not exist is rejected
+                 raises=[("KeyError", "exists(Str, lambda a: (a in aliases) and not (a in module_names))")],
+                 loops={0: dict(sig="for module in aliases", invariant=["forall(Str, lambda a: implies(a in seen, a in module_names))"])},
+                 properties=["C17"]))
+REG.add(Contract(f"{NG}._create_plot_labels_with_alias", module=M_NX, kind="method", view="string",
+                 params=dict(self=NG, aliases="Dict[Str,Str]"), returns="Dict[Str,Str]",
+                 raises=[("KeyError", "exists(Str, lambda a: (a in aliases) and not dg_node(self._graph, a))")],
+                 # C17: every module of the architecture is labelled exactly once, with the label of the property (label_ok)
+                 ensures=["forall(Str, lambda m: (m in result) == dg_node(self._graph, m))",
+                          "forall(Str, lambda m: implies(m in result, label_ok(aliases, m, result[m])))"],
+                 locals=dict(labels="Dict[Str,Str]", module_names="Bag[Str]"), opaque=["label_ok"],
+                 loops={0: dict(sig="for module_name_to_alias in module_names", invariant=[
+                     "forall(Str, lambda m: (m in labels) == (m in seen))",
+                     "forall(Str, lambda m: implies(m in labels, label_ok(aliases, m, labels[m])))"])},
+                 properties=["C17", "C14"]))
